@@ -215,7 +215,7 @@ def run(chk):
         if g["name"] in QUERIES:
             return True
         if depth > 4 or g.get("body") is None:
-            return False
+            return None
         pid = g["params"][k]["id"]
         for st in g["body"]["body"]:
             ments = [n for n in walk(st) if n.get("k") == "var" and n.get("id") == pid]
@@ -233,7 +233,13 @@ def run(chk):
                 pos = [i for i, a in enumerate(e.get("args", [])) if isinstance(a, dict) and a.get("k") == "var" and a.get("id") == pid]
                 if h is not None and h.get("cls") == cls and len(pos) == 1 and len(ments) == 1 and pos[0] < len(pm) and pm[pos[0]] == "ref":
                     return defines_whole(cls, h, pos[0], depth + 1)
-            return False
+            # an accumulation into the parameter reads what the caller left there; any other first use (a resize, a
+            # guarded initialisation, ...) is not decided by this summary
+            if e is not None and e.get("k") == "assign" and e.get("op") in ("+=", "-=", "*=", "/=") and e["l"].get("k") == "var" and e["l"].get("id") == pid:
+                return False
+            if e is not None and e.get("k") == "call" and callee(e).get("op") in ("+=", "-=", "*=", "/=") and isinstance(e.get("obj"), dict) and e["obj"].get("k") == "var" and e["obj"].get("id") == pid:
+                return False
+            return None
         return False
 
     for short in SPLINES:
@@ -257,9 +263,14 @@ def run(chk):
                         h = F.by_fid[callee(e)["fid"]]
                         pm = callee(e).get("pm", [])
                         for i, a in enumerate(e["args"]):
-                            if is_mem_of_var(a, prm["id"]) and i < len(pm) and pm[i] == "ref" and state.get(a["field"]) is None and defines_whole(cls, h, i):
-                                state[a["field"]] = "out-parameter of " + callee(e)["name"]
-                                done.add(a["field"])
+                            if is_mem_of_var(a, prm["id"]) and i < len(pm) and pm[i] == "ref" and state.get(a["field"]) is None:
+                                dw = defines_whole(cls, h, i)
+                                if dw is None:
+                                    raise Broken("C10-R1: whether %s defines its parameter %d before reading it is not decided by the out-parameter summary (%s hands it field %s)" % (
+                                        h["full"], i, f["full"], a["field"]))
+                                if dw:
+                                    state[a["field"]] = "out-parameter of " + callee(e)["name"]
+                                    done.add(a["field"])
                     for n in walk(st):
                         if is_mem_of_var(n, prm["id"]) and n["field"] not in done and state.get(n["field"]) is None:
                             state[n["field"]] = "BAD: touched at line %s before being defined" % n.get("line", st.get("line"))
